@@ -16,6 +16,10 @@ TRUSTED = ['rustc MIR of the emitted code', 'engine/idl.py (independent IDL read
 
 def run(ctx):
     rep = Report('C02')
+    import gen_thrift as _g
+    _g.corpus_generated(rep, 'G02.h')
+    if ctx['tier'] == 'thorough':
+        _g.corpus_generated(rep, 'G02.h', split=True)
     for split in ([False, True] if ctx['tier'] == 'thorough' else [False]):
         gen_thrift.four_tables(rep, 'G02.a', split)
         gen_thrift.enums_and_newtypes(rep, 'G02.e', split)
